@@ -48,6 +48,41 @@ def true_returns(f):
     return out
 
 
+def search_floor(f, start_expr):
+    """the field F such that the start of the search is max(clock now, F): std::max(now, F) in any argument order, or a local initialised from the clock value and raised
+    to F under `local < F`.  Returns the qualified field name or None."""
+    found = []
+    def is_max(g, sx):
+        if sx['k'] in q.CALL_KINDS and sx.get('callee', '').startswith('std::max') and len(sx.get('args', [])) == 2:
+            for a in sx['args']:
+                fq = g.field_of(a)
+                if fq:
+                    found.append(fq)
+            return bool(found)
+        return False
+    if flows_from(f, start_expr, is_max) and found:
+        return found[0]
+    # clamp form (looked for through the locals the start value is computed from)
+    seen, work = set(), [start_expr]
+    while work:
+        e = work.pop()
+        for x in f.walk(e):
+            sx = f.stmts[x]
+            if sx['k'] != 'DeclRefExpr' or sx.get('dk') != 'Var' or sx['d'] in seen:
+                continue
+            seen.add(sx['d'])
+            for d in rd.local_defs(f, sx['d']):
+                if d['rhs'] is not None and len(seen) < 12:
+                    work.append(d['rhs'])
+                if d['kind'] == '=' and d['rhs'] is not None and f.field_of(d['rhs']) and d['point'] is not None:
+                    fq = f.field_of(d['rhs'])
+                    for cond, k, b_ in f.cfg.controlling_branches(d['point']):
+                        for l, o, r in q.edge_rels(f, cond, k):
+                            if l == sx['n'] and o == '<' and r.endswith(fq.split('::')[-1]):
+                                return fq
+    return None
+
+
 def r1(ctx, prog):
     ctx.rule('C20.R1', 'A10: the wait is never shortened by overflow: every unit conversion (x1000 / x60 / x3600) feeding the timer interval is computed in a '
                        'type that holds the product for the full range of its operand\'s type', floor=1)
@@ -104,12 +139,7 @@ def r2(ctx, prog):
     calc = [st for st in f.calls() if st.get('fn') == 'calculateNextLocalTimeSec']
     if not calc:
         raise AnalysisBroken('activeTimer: calculateNextLocalTimeSec call not found')
-    def is_max_now_target(g, sx):
-        if sx['k'] in q.CALL_KINDS and sx.get('callee', '').startswith('std::max'):
-            ps = [g.path(a) for a in sx.get('args', [])]
-            return any(p.endswith('_utc_sec_') for p in ps) and len(ps) == 2
-        return False
-    ok = flows_from(f, calc[0]['args'][0], is_max_now_target)
+    ok = search_floor(f, calc[0]['args'][0]) is not None
     # and the other operand of max is the clock value read in this call
     clock = [st for st in f.calls() if 'GetCurrentUtcTime' in st.get('callee', '')]
     ctx.ob('C20.R2', '%s|start-from-max' % f.name, ok and bool(clock), 'the start of the next computation depends on std::max(<clock now>, <instant kept by the alarm>)', where=f.loc(calc[0]['i']))
@@ -143,6 +173,16 @@ def r4(ctx, prog):
     run = [a for a, rhs in q.assigns(f, 'Alarm::state_') if f.s(f.strip_casts(rhs)).get('n') == 'kRunning']
     ctx.ob('C20.R4', '%s|arm+running' % f.name, len(en) == 1 and len(run) == 1 and q.must_follow(f, q.pt(f, en[0]), q.pts(f, run)) and f.cfg.dominates(q.pt(f, en[0]), q.pt(f, run[0])),
            'timer enable and state_ = kRunning happen together', where=f.loc(f.body))
+    # ... and every successful return of activeTimer has programmed the timer with the wait computed in this call (initialize + enable): an instant that "has not
+    # changed" still has to be re-measured against the clock as it is now
+    inits = [st for st in f.calls() if st.get('fn') == 'initialize' and 'obj' in st and (f.field_of(st['obj']) or '').endswith('sp_timer_ev_')]
+    for r, flag, facts_ in true_returns(f):
+        rp = q.pt_or_term(f, r)
+        okp = bool(inits) and bool(en) and not f.cfg.exists_path(f.cfg.entry_point(), rp, avoid=q.pts(f, inits), src_inclusive=True) and \
+            not f.cfg.exists_path(f.cfg.entry_point(), rp, avoid=q.pts(f, en), src_inclusive=True)
+        ctx.ob('C20.R4', '%s|armed-on-success@%s' % (f.name, f.loc(r['i']).split(':')[-1]), okp, 'this successful return has re-programmed and enabled the timer' if okp else
+               'activeTimer() reports success here without programming the timer in this call: the old interval keeps running although the clock reading it was computed from is '
+               'no longer valid (after a clock step the alarm fires that much early or late)', where=f.loc(r['i']))
     for name in ('disable', 'refresh'):
         g = prog.fn1(AL + '::' + name)
         ini = [a for a, rhs in q.assigns(g, 'Alarm::state_') if g.s(g.strip_casts(rhs)).get('n') == 'kInited']
@@ -344,18 +384,9 @@ def r8(ctx, prog):
     calc = [st for st in f.calls() if st.get('fn') == 'calculateNextLocalTimeSec']
     if not calc:
         raise AnalysisBroken('activeTimer: calculateNextLocalTimeSec call not found')
-    found = []
-    def is_max(g, sx):
-        if sx['k'] in q.CALL_KINDS and sx.get('callee', '').startswith('std::max') and len(sx.get('args', [])) == 2:
-            for a in sx['args']:
-                fq = g.field_of(a)
-                if fq:
-                    found.append(fq)
-            return bool(found)
-        return False
-    if not flows_from(f, calc[0]['args'][0], is_max) or not found:
-        raise AnalysisBroken('activeTimer: the start of the search is not std::max(now, <field>)')
-    F = found[0]
+    F = search_floor(f, calc[0]['args'][0])
+    if F is None:
+        raise AnalysisBroken('activeTimer: the start of the search is not max(now, <field>)')
     short = F.split('::')[-1]
     fam = [AL] + prog.derived_classes(AL)
     methods = [g for c in fam for g in prog.methods_of(c)]
@@ -642,6 +673,44 @@ def r12(ctx, prog):
         raise AnalysisBroken('expected >= 8 configuration/alignment tests in the alarm module, found %d' % n)
 
 
+def r13(ctx, prog):
+    ctx.rule('C20.R13', 'A4 depends-on: the wait is the distance from the clock reading to the chosen instant — the seconds/microseconds subtracted in the interval computation are the '
+             'values GetCurrentUtcTime() filled in this call and nothing has assigned them since (an adjusted "now" used for the search floor must live in its own variable)', floor=1)
+    f = prog.fn1(AL + '::activeTimer')
+    clk = [c for c in f.calls() if 'GetCurrentUtcTime' in (c.get('callee') or '')]
+    if not clk:
+        raise AnalysisBroken('activeTimer: clock read not found')
+    outs = {}
+    for a in clk[0].get('args', []):
+        x = f.s(f.strip_casts(a))
+        if x is not None and x['k'] == 'DeclRefExpr':
+            outs[x['d']] = x['n']
+    ini = [st for st in f.calls() if st.get('fn') == 'initialize' and 'obj' in st and (f.field_of(st['obj']) or '').endswith('sp_timer_ev_')]
+    if not ini or not outs:
+        raise AnalysisBroken('activeTimer: timer programming / clock out-parameters not found')
+    # clock variables the interval depends on
+    used = set()
+    def deps(e, depth=0):
+        for x in f.walk(e):
+            sx = f.stmts[x]
+            if sx['k'] == 'DeclRefExpr' and sx.get('dk') == 'Var':
+                if sx['d'] in outs:
+                    used.add(sx['d'])
+                elif depth < 6:
+                    for d in rd.local_defs(f, sx['d']):
+                        if d['rhs'] is not None:
+                            deps(d['rhs'], depth + 1)
+    deps(ini[0]['args'][0])
+    bad = []
+    for d_ in used:
+        for df in rd.local_defs(f, d_):
+            if df['kind'] in ('=', '+=', '-=', '++', '--'):
+                bad.append((outs[d_], f.loc(df['sid'])))
+    ctx.ob('C20.R13', '%s|wait-from-clock' % f.name, bool(used) and not bad, 'the interval is computed from the clock values as read (%s)' % sorted(outs[d_] for d_ in used) if used and not bad else
+           ('the clock value %s that the interval is measured from is reassigned at %s: after an early wake-up the wait is measured from the adjusted value and comes out too short'
+            % bad[0]) if bad else 'the interval does not depend on the clock reading', where=f.loc(ini[0]['i']))
+
+
 def run(ctx):
     prog = extract('ALL' if ctx.tier == 'thorough' else scope_units())
     ctx.guard(r1, ctx, prog)
@@ -656,4 +725,5 @@ def run(ctx):
     ctx.guard(r10, ctx, prog)
     ctx.guard(r11, ctx, prog)
     ctx.guard(r12, ctx, prog)
+    ctx.guard(r13, ctx, prog)
     return prog
